@@ -46,13 +46,8 @@ static void val_print_rec(NanoValue v, FILE *out, const void **chain, int depth)
             fprintf(out, "%u", v.as.u8);
             break;
         case TAG_FLOAT: {
-            /* Print without trailing zeros, but always with at least one decimal */
-            double d = v.as.f64;
-            if (d >= -1e15 && d <= 1e15 && d == (double)(long long)d) {
-                fprintf(out, "%.1f", d);
-            } else {
-                fprintf(out, "%g", d);
-            }
+            /* As the compiled program, the evaluator and this VM's own to_string print a float */
+            fprintf(out, "%g", v.as.f64);
             break;
         }
         case TAG_BOOL:
